@@ -86,7 +86,7 @@ fn main() {
                     std::process::exit(2);
                 }
                 Ok(Some(Ok(_))) => {
-                    if a1 != a0 {
+                    if a1 != a0 && prop == "C18" {
                         println!("replay: {} heap allocation(s) inside crate calls", a1 - a0);
                         println!("VIOLATION property={} replay={}", prop, args[3]);
                         std::process::exit(1);
